@@ -5,6 +5,7 @@ import (
 	"context"
 	"errors"
 	"fmt"
+	"sync"
 	"sync/atomic"
 
 	"github.com/celestiaorg/go-header"
@@ -26,7 +27,10 @@ func (ena *errNonAdjacent) Error() string {
 type syncStore[H header.Header[H]] struct {
 	header.Store[H]
 
-	head atomic.Pointer[H]
+	// appendMu makes Append's check of the given headers against head and
+	// the update of head one step
+	appendMu sync.Mutex
+	head     atomic.Pointer[H]
 }
 
 func (s *syncStore[H]) Head(ctx context.Context) (H, error) {
@@ -47,6 +51,11 @@ func (s *syncStore[H]) Append(ctx context.Context, headers ...H) error {
 	if len(headers) == 0 {
 		return nil
 	}
+
+	// Append is called by the sync loop and by everyone who learns a new head: without the lock
+	// a caller that loaded head before another one advanced it would put its older header back
+	s.appendMu.Lock()
+	defer s.appendMu.Unlock()
 
 	head, err := s.Head(ctx)
 	if errors.Is(err, header.ErrEmptyStore) {
